@@ -282,10 +282,14 @@ class KMatrix(ModelItem):
         initial_concentration :
             The initial concentration.
         """
-        if np.sum(initial_concentration) != 1:
+        initial_concentration = np.asarray(initial_concentration)
+        if initial_concentration[0] != 1 or np.count_nonzero(initial_concentration) != 1:
+            # the closed form solution assumes that only the first compartment is populated
             return False
         matrix = self.reduced(compartments)
-        return not any(
-            np.nonzero(matrix[:, i])[0].size != 1 or i != 0 and matrix[i, i - 1] == 0
-            for i in range(matrix.shape[1])
-        )
+        size = matrix.shape[0]
+        # an unibranched model only has the transfers i -> i + 1 and the decay of the last compartment
+        chain = np.zeros(matrix.shape, dtype=bool)
+        chain[np.arange(1, size), np.arange(size - 1)] = True
+        chain[size - 1, size - 1] = True
+        return np.array_equal(matrix != 0, chain)
